@@ -19,7 +19,7 @@ BIN=$(find "$VERIF/harness/target/x86_64-unknown-linux-gnu/release" "$FDIR/targe
 [ -x "$BIN" ] || { echo "INFRA: fuzz binary not found"; exit 2; }
 T0=$(date +%s)
 ( cd "$LOGD" && "$BIN" "$CORPUS" -runs="$RUNS" -seed="$SEED" -len_control=0 -max_len=4096 -rss_limit_mb=4096 -timeout=60 \
-    -print_final_stats=1 -artifact_prefix="$ART/" -workers="$WORKERS" -jobs="$WORKERS" >"$LOGD/main.log" 2>&1 )
+    -print_final_stats=1 -dict="$FDIR/ipp.dict" -artifact_prefix="$ART/" -workers="$WORKERS" -jobs="$WORKERS" >"$LOGD/main.log" 2>&1 )
 T1=$(date +%s)
 EXECS=$(cat "$LOGD"/fuzz-*.log 2>/dev/null | grep -a "stat::number_of_executed_units" | awk '{s+=$2} END {print s+0}')
 CORPUS_N=$(ls "$CORPUS" | wc -l)
